@@ -100,15 +100,15 @@ P('C13', theorems=['Tcs.C13_any_two_backends', 'Tcs.C13_backends_agree', 'Tcs.C1
 P('C18', theorems=['Tcs.C18_spec', 'Tcs.C18_no_id', 'Tcs.C18_noop', 'Tcs.C18_tables', 'Tcs.C18_tables_sql', 'Tcs.C18_tables_mem', 'Tcs.readsPure_sql', 'Tcs.readsPure_mem', 'Tcs.run_readOnly', 'Tcs.C10_off_chain_declined_any_window'],
   owned={'noop.dump'},
   oracles=[O.o_c18, relabel(O.o_c15, 'C18: any refused request leaves every client\'s stored state exactly as it was')],
-  plan={'quick': [hist('default', 220, LIBHTTP), grammar(6, 120, lists='none,one')], 'thorough': [hist('default', 4000, LIBHTTP), grammar(60, 300, lists='none,one,many')]})
+  plan={'quick': [hist('default', 220, LIBHTTP), grammar(6, 120, lists='none,one'), {'scen': 'urgency', 'args': {'shards': 8}, 'n': 8, 'shards': 8}], 'thorough': [hist('default', 4000, LIBHTTP), grammar(60, 300, lists='none,one,many'), {'scen': 'urgency', 'args': {'shards': 16, 'dense': '1'}, 'n': 16, 'shards': 16}]})
 
 P('C03', theorems=['Tcs.C03_linearizable_partial', 'Tcs.C03_library_linearizable', 'Tcs.C03_linearizable_core', 'Tcs.C03MixEx.C03_mix_not_linearizable', 'Tcs.C03_from_init', 'Tcs.C03_no_overlap_5xx', 'Tcs.C03_no_double_accept', 'Tcs.C03Ex.C03_relaxation_needed',
                    'Tcs.C03_http_run', 'Tcs.C03_http_responses', 'Tcs.C03_library_step', 'Tcs.machine_linearizable', 'Tcs.runinv_run', 'Tcs.arel_step', 'Tcs.linrel_step', 'Tcs.C03_reduction_prefix',
                    'Tcs.red_step', 'Tcs.C03_reduction', 'Tcs.C03_reduction_sublist', 'Tcs.red_init', 'Tcs.red_resp', 'Tcs.red_db'],
   module='Tcs.Props.C03Http',
   owned={'conc.trace', 'conc.resp', 'dump.own', 'dump.other'},
-  oracles=[O.o_c03],
-  plan={'quick': [{'scen': 'sched', 'args': {}, 'n': 180}, {'scen': 'sched', 'args': {'probe': '1', 'corpus': '0'}, 'n': 24}], 'thorough': [{'scen': 'sched', 'args': {}, 'n': 4000}, {'scen': 'sched', 'args': {'probe': '1', 'corpus': '0'}, 'n': 300}]})
+  oracles=[O.o_c03, O.o_overlap_done],
+  plan={'quick': [{'scen': 'sched', 'args': {}, 'n': 180}, {'scen': 'sched', 'args': {'probe': '1', 'corpus': '0'}, 'n': 24}, {'scen': 'overlap', 'args': {}, 'n': 8}], 'thorough': [{'scen': 'sched', 'args': {}, 'n': 4000}, {'scen': 'sched', 'args': {'probe': '1', 'corpus': '0'}, 'n': 300}]})
 P('C04', needs_binary=True, theorems=['Tcs.C04_atomic', 'Tcs.C04_ack_durable', 'Tcs.C04_ack_after_commit', 'Tcs.C04_sql_commit', 'Tcs.C04_ack_or_error', 'Tcs.C04_ack_before_crash', 'Tcs.crash_state_between_txns', 'Tcs.allCommitLast_serve'],
   owned={'av.kind', 'as.kind', 'http.status.av', 'http.status.as', 'http.headers.av', 'snap.accept', 'state.dump'},
   oracles=[O.o_c04, O.o_c04_bin],
@@ -157,7 +157,7 @@ P('C20', theorems=['Tcs.C20_all_responses', 'Tcs.C20_value', 'Tcs.C20_wrapper_id
         'thorough': [grammar(120, 300), hist('default', 600, 'mem:http,sql:http'), {'scen': 'fault', 'args': {}, 'n': 100}, {'scen': 'py:c17', 'args': {'mode': 'broken'}, 'n': 24, 'shards': 8}, {'scen': 'py:c17', 'args': {}, 'n': 24, 'shards': 8}]})
 P('C06', theorems=['Tcs.C06_assemble', 'Tcs.C06_chunking_irrelevant', 'Tcs.C06_split_anywhere', 'Tcs.C06_version_roundtrip', 'Tcs.C06_snapshot_roundtrip', 'Tcs.C06_response_body', 'Tcs.assemble_spec'],
   owned={'gcv.payload', 'snap.payload', 'http.body.gcv', 'http.body.gs', 'gcv.ids', 'snap.vid'},
-  oracles=[O.o_c06],
+  oracles=[O.o_c06, relabel(O.o_overlap_done, 'C06: the bytes uploaded are stored however the upload was split into network chunks - also when another upload arrives at the same time')],
   plan={'quick': [hist('c06', 120, 'mem:http,sql:http,sqlre:lib'), hist('mid', 8, 'mem:http,sql:http'), hist('c06', 24, 'mem:http,sql:http', stall='1'), {'scen': 'overlap', 'args': {}, 'n': 16}],
         'thorough': [hist('c06', 1500, 'mem:http,sql:http,sqlre:lib'), hist('mid', 120, 'mem:http,sql:http'), hist('c06', 300, 'mem:http,sql:http', stall='1'), {'scen': 'overlap', 'args': {}, 'n': 400}]})
 
